@@ -461,3 +461,48 @@ Proof.
   - intros Hin. assert (~ 0 < cnt x (b_arrivals ins)) by tauto. lia.
   - intros H1s. rewrite Hs in Hb. apply Hb; [exact H1s|]. change (zlen (@nil Z)) with 0. lia.
 Qed.
+
+(* ================================================================== *)
+(** * Concurrency models *)
+
+(** The invariant "0 <= active <= limit" (Fixed, Weighted; Dynamic as long as
+    the limit is not lowered below the active count — a scale-down lets running
+    requests finish, which is intended). *)
+Definition cm_ok (m : cmodel) : Prop := 0 <= cm_active m <= cm_limit m.
+
+Lemma cm_step_bound m o m' r : cm_step m o = (m', r) ->
+  (match o with CSetLimit _ => False | _ => True end) -> cm_ok m -> cm_ok m'.
+Proof.
+  unfold cm_ok. destruct m as [mx a|cur mn mx a|t u], o as [w|w|w|n]; cbn; intros H Ho; try contradiction;
+    repeat match type of H with context [if ?c then _ else _] => destruct c eqn:? end;
+    inversion H; subst; cbn; lia.
+Qed.
+
+Theorem concurrency_models_bound : forall ops m,
+  Forall (fun o => match o with CSetLimit _ => False | _ => True end) ops ->
+  cm_ok m -> cm_ok (cm_run m ops).
+Proof.
+  induction ops as [|o ops IH]; intros m Hall Hm; [exact Hm|].
+  inversion Hall; subst. cbn [cm_run]. destruct (cm_step m o) as [m' r] eqn:E. cbn [fst].
+  apply IH; [assumption|]. eapply cm_step_bound; eauto.
+Qed.
+
+(** For every model, also across limit changes: a successful acquire never
+    takes the active count above the limit in force, has_capacity(w) answers
+    exactly whether acquire(w) would succeed, and a failed acquire changes
+    nothing. *)
+Theorem acquire_respects_limit : forall m w m' r,
+  cm_step m (CAcquire w) = (m', r) ->
+  (r = 1 -> cm_active m' <= cm_limit m' /\ cm_active m < cm_active m') /\
+  (r <> 1 -> m' = m) /\
+  (1 <= w -> (snd (cm_step m (CHasCap w)) = 1 <-> r = 1)).
+Proof.
+  intros m w m' r H. destruct m as [mx a|cur mn mx a|t u]; cbn in *.
+  - destruct (mx <=? a) eqn:E; inversion H; subst; cbn; repeat split; intros; try discriminate; try congruence; try lia;
+      destruct (a <? mx) eqn:E2; try lia; try discriminate; try reflexivity.
+  - destruct (cur <=? a) eqn:E; inversion H; subst; cbn; repeat split; intros; try discriminate; try congruence; try lia;
+      destruct (a <? cur) eqn:E2; try lia; try discriminate; try reflexivity.
+  - destruct (w <? 1) eqn:E0; [inversion H; subst; cbn; repeat split; intros; try discriminate; try congruence; try lia|].
+    destruct (t <? u + w) eqn:E; inversion H; subst; cbn; repeat split; intros; try discriminate; try congruence; try lia;
+      destruct (u + w <=? t) eqn:E2; try lia; try discriminate; try reflexivity.
+Qed.
